@@ -4,6 +4,6 @@ namespace PsVerif.Props.Ties
 open PsVerif.Generated
 
 /-! ## PFB header (C14, C01) -/
-theorem pfb_header_tests : Consts.pfb_headerTests = ["== 128", "== 3", "!= 128", "== 0", "> 3"] := rfl
+theorem pfb_header_tests : Consts.pfb_headerTests = ["!= 128", "== 0", "== 128", "== 3", "> 3"] := rfl
 
 end PsVerif.Props.Ties
